@@ -260,6 +260,25 @@ impl DiscoveryDB {
     }
   }
 
+  // The remote readers and writers we currently know of one participant
+  pub fn endpoints_of_participant(
+    &self,
+    guid_prefix: GuidPrefix,
+  ) -> (Vec<DiscoveredReaderData>, Vec<DiscoveredWriterData>) {
+    (
+      self
+        .external_topic_readers
+        .range(guid_prefix.range())
+        .map(|(_, d)| d.clone())
+        .collect(),
+      self
+        .external_topic_writers
+        .range(guid_prefix.range())
+        .map(|(_, d)| d.clone())
+        .collect(),
+    )
+  }
+
   pub fn find_participant_proxy(
     &self,
     guid_prefix: GuidPrefix,
